@@ -103,21 +103,31 @@ def r1_stage_order(ctx) -> None:
         else:
             r.violation("C14.R1", cv.qual, f"return self.finalize(queries, ...): call order …{kinds[-3:]}", "finalizers are not run exactly once on the complete query list, after all rules, with the requested format", cv.loc)
     cr = prog.func(BK + ".convert_rule")
-    ap = _calls(cr, "self.last_processing_pipeline.apply")
-    cc = _calls(cr, "self.convert_condition")
-    fq = _calls(cr, "self.finish_query")
-    fz = _calls(cr, "self.finalize_query")
-    for first, then, what in ((ap, cc, "pipeline.apply(rule) before convert_condition"), (cc, fq, "convert_condition before finish_query"), (fq + cc, fz, "finish_query before finalize_query")):
-        if first and then and _dominates(prog, cr, first[:1] if what.startswith("pipeline") else first, then) if what.startswith("pipeline") else (first and then and all(t.lineno > f.lineno for t in then for f in first)):
-            r.ok("C14.R1", cr.qual, what, f"{cr.module.relpath}:{then[0].lineno}")
+    # convert_rule interpreted (sa.tabulate, Proxy) on a stand-in rule with two conditions: the order of the stages
+    from .standins import run_per_rule_converter
+    o = run_per_rule_converter(ctx, "convert_rule", output=True)
+    if o.raised is not None:
+        raise AnalysisError(f"{cr.qual}: raises {o.raised} on the stand-in rule")
+    tr = o.trace
+    first = {k: (tr.index(k) if k in tr else None) for k in ("pipeline", "read conditions", "convert", "finish", "finalize")}
+    last = {k: (len(tr) - 1 - tr[::-1].index(k) if k in tr else None) for k in first}
+    def before(a, b):  # every a before every b
+        return last[a] is not None and first[b] is not None and last[a] < first[b]
+    checks = [
+        ("pipeline.apply(rule) before convert_condition", tr.count("pipeline") == 1 and before("pipeline", "convert")),
+        ("convert_condition before finish_query", tr.count("convert") == 2 and tr.count("finish") == 2 and all(tr[:i_].count("convert") > tr[:i_].count("finish") for i_, k in enumerate(tr) if k == "finish")),
+        ("finish_query before finalize_query", tr.count("finalize") == 2 and before("finish", "finalize") and before("convert", "finalize")),
+    ]
+    for what, okc in checks:
+        if okc:
+            r.ok("C14.R1", cr.qual, f"{what} (interpreted; stages: {' → '.join(tr)})", cr.loc)
         else:
-            r.violation("C14.R1", cr.qual, what, "stage order violated: transformations must run before conversion, query finishing before finalisation/post-processing", cr.loc)
+            r.violation("C14.R1", cr.qual, f"{what}: stages ran as {' → '.join(tr)}", "stage order violated: transformations must run before conversion, query finishing before finalisation/post-processing", cr.loc)
     # parsed conditions are read after the pipeline ran (the pipeline may rewrite conditions)
-    pc = [n for n in walk_no_nested(cr.node) if isinstance(n, ast.Attribute) and n.attr == "parsed_condition"]
-    if ap and pc and _dominates(prog, cr, ap[:1], pc):
-        r.ok("C14.R1", cr.qual, "rule.detection.parsed_condition is read only after the pipeline was applied", f"{cr.module.relpath}:{pc[0].lineno}")
+    if first["read conditions"] is not None and first["pipeline"] is not None and first["pipeline"] < first["read conditions"]:
+        r.ok("C14.R1", cr.qual, "rule.detection.parsed_condition is read only after the pipeline was applied", cr.loc)
     else:
-        r.violation("C14.R1", cr.qual, "rule.detection.parsed_condition", "conditions are read before the pipeline ran: condition-rewriting transformations are ignored", cr.loc)
+        r.violation("C14.R1", cr.qual, f"rule.detection.parsed_condition: stages ran as {' → '.join(tr)}", "conditions are read before the pipeline ran: condition-rewriting transformations are ignored", cr.loc)
     fqf = prog.func(BK + ".finalize_query")
     rets = [x for x in walk_no_nested(fqf.node) if isinstance(x, ast.Return)]
     if len(rets) == 1 and isinstance(rets[0].value, ast.Call) and call_name(rets[0].value) == "self.last_processing_pipeline.postprocess_query" \
